@@ -67,12 +67,13 @@ class Ctl:
         self.gv: Dict[str, str] = {}
         self.log: List[list] = []
         self.tnames: Dict[int, str] = {}
-        self.fault = None  # optional fault plan (set by C07)
+        self.faults: set = set()  # user actions that raise when called (C07 fault plan)
         self.calls = 0
         self.fuel = 10 ** 9
         self.events = 0
 
     def reset(self) -> None:
+        self.faults = set()
         self.gv = {}
         self.log = []
         self.calls = 0
@@ -112,6 +113,8 @@ def make_logic(ctl: Ctl, actions: List[str], guards: List[str], services=None, d
     def mk_action(name: str):
         def marker(interp, ctx, event, action_def):
             ctl.calls += 1
+            if action_def.type in ctl.faults:
+                raise RuntimeError(f"planned fault in {action_def.type}")
             ctl.emit("act", action_def.type, event.type)
         marker.__name__ = "marker_" + "".join(ch if ch.isalnum() else "_" for ch in name)
         return marker
@@ -266,7 +269,31 @@ class TracedAsync(_TraceMixin, Interpreter):
         return await super()._cancel_state_tasks(state)
 
 
+class BadObserver:
+    """A plugin whose every hook raises (C07 (b)): registered BEFORE the recorder."""
+
+    def __getattr__(self, name):
+        if name.startswith("on_"):
+            def boom(*a, **k):
+                raise RuntimeError(f"planned observer fault in {name}")
+            return boom
+        raise AttributeError(name)
+
+
+OBSERVER_FAULTS = {"on": False}
+
+
 def attach(interp, ctl: Ctl, out_tag=None):
+    if OBSERVER_FAULTS["on"]:
+        def bad_sub(i):
+            raise RuntimeError("planned subscriber fault")
+
+        def bad_listener(ev):
+            raise RuntimeError("planned listener fault")
+
+        interp.use(BadObserver())
+        interp.subscribe(bad_sub)
+        interp.on("*", bad_listener)
     interp.use(Recorder(ctl, out_tag))
     interp.subscribe(lambda i: ctl.emit("subscriber", "", "", ids(i._active_state_nodes)))
     return interp
